@@ -165,7 +165,11 @@ fn chain_case(rng: &mut Rng) -> LCase {
     let nchecks = rng.below(3);
     for _ in 0..nchecks {
         checks.push(ACheck {
-            kind: if rng.chance(1, 3) { CK::Reject } else { CK::One },
+            kind: match rng.below(4) {
+                0 => CK::Reject,
+                1 => CK::All,
+                _ => CK::One,
+            },
             queries: (0..1 + rng.below(2))
                 .map(|_| q(vec![pr("p", vec![DTerm::Val(V::Int(rng.range(0, l as i64 + 1)))])], vec![]))
                 .collect(),
